@@ -465,14 +465,49 @@ func (w *World) checkActivation(nd *Node, fn string, active bool) {
 // builder method per argument.
 func Rebuild(fn string, args [][]byte, ops []string) string {
 	b := txDataBuilder.NewBuilder()
-	if len(ops) > len(args) && ops[len(args)] == "reuse" {
+	extra := map[string]bool{}
+	for i := len(args); i < len(ops); i++ {
+		extra[ops[i]] = true
+	}
+	if extra["reuse"] {
 		// a builder that was used before and cleared
 		b.Func("old").Str("junk").Int(7)
 		_ = b.ToString()
 		b.Clear()
 	}
 	b.Func(fn)
+	skip := 0
+	if extra["helper"] {
+		// the builder's own helpers for the leading (token, [nonce,] value) of a transfer or burn
+		small := func(a []byte) (int64, bool) {
+			if len(a) > 8 || len(a) == 8 && a[0] >= 0x80 || len(a) > 0 && a[0] == 0 {
+				return 0, false
+			}
+			return new(big.Int).SetBytes(a).Int64(), true
+		}
+		switch {
+		case (fn == spec.FnESDTTransfer || fn == spec.FnBurn) && len(args) >= 2:
+			if v, ok := small(args[1]); ok {
+				if fn == spec.FnBurn {
+					b.BurnESDT(string(args[0]), v)
+				} else {
+					b.TransferESDT(string(args[0]), v)
+				}
+				skip = 2
+			}
+		case fn == spec.FnESDTNFTTransfer && len(args) >= 3:
+			n, ok1 := small(args[1])
+			v, ok2 := small(args[2])
+			if ok1 && ok2 && n < 1<<31 {
+				b.TransferESDTNFT(string(args[0]), int(n), v)
+				skip = 3
+			}
+		}
+	}
 	for i, a := range args {
+		if i < skip {
+			continue
+		}
 		op := "bytes"
 		if i < len(ops) {
 			op = ops[i]
